@@ -5,7 +5,8 @@ From Coq Require Import List ZArith NArith Bool Arith Lia String.
 Import ListNotations.
 From DD Require Import Base.PyStr Base.Value Diff.Tree Diff.DiffModel Hash.HashModel Hash.HashProofsBase
   Hash.HashProofsC07 DiffIO.DiffIOModel Options.OptModel Options.OptProofsAtoms HashDiff.HashDiffModel
-  HashDiff.HashDiffProofsAtoms HashDiff.HashDiffProofsInv HashDiff.HashDiffProofsLift HashDiff.HashDiffProofsWitness.
+  HashDiff.HashDiffProofsAtoms HashDiff.HashDiffProofsInv HashDiff.HashDiffProofsLift HashDiff.HashDiffProofsKeys
+  HashDiff.HashDiffProofsWitness.
 
 (* 'a' followed by the unary code of the text *)
 Definition uhash (s : pystr) : pystr := 97%N :: unary_hash s.
@@ -36,4 +37,8 @@ Qed.
 
 Theorem lift_guard_example :
   lift_guard cfg_def F_all false ex_a ex_b = true /\ lift_guard cfg_def F_all true ex_a ex_b = true.
+Proof. vm_compute. split; reflexivity. Qed.
+
+Theorem lift_guardb_example :
+  lift_guardb cfg_def F_all false ex_a ex_b = true /\ lift_guardb cfg_def F_all true ex_a ex_b = true.
 Proof. vm_compute. split; reflexivity. Qed.
